@@ -606,7 +606,7 @@ pub(crate) fn add(ctx: &mut TulispContext) {
     fn dotimes(ctx: &mut TulispContext, args: &TulispObject) -> Result<TulispObject, Error> {
         destruct_bind!((spec &rest body) = args);
         destruct_bind!((var count &optional result) = spec);
-        let count = count.as_int()?;
+        let count = ctx.eval(&count)?.as_int()?;
         var.set_scope(TulispObject::from(0))?;
         let mut loop_res = Ok(());
         for counter in 0..count {
